@@ -148,6 +148,49 @@ func runClassifier(p *core.Prog) *core.Result {
 	}
 	res.Count("cases", len(cases))
 	res.Count("uncatchable_types", len(U))
+	// raise/recognise agreement: Go functions re-panic an error as uncatchable when
+	// isUncatchableException(err) holds (the Unwrap chain contains an uncatchable condition,
+	// e.g. fmt.Errorf("...: %w", interruptedErr)); the boundary classifier must recognise at
+	// least that set, or the outermost call panics instead of returning the error.
+	{
+		isU, err := p.GojaFunc("isUncatchableException")
+		if err != nil {
+			return res.Fail(err)
+		}
+		asU, err := p.GojaFunc("asUncatchableException")
+		if err != nil {
+			return res.Fail(err)
+		}
+		raises := 0
+		for _, f := range p.Funcs {
+			if !p.InModule(f) || f == asU {
+				continue
+			}
+			for _, c := range core.CallsIn(f, isU) {
+				// a panic in a block controlled by the positive result
+				call, ok := c.(*ssa.Call)
+				if !ok {
+					continue
+				}
+				for _, e := range core.CondEdges(call) {
+					for _, in := range e.True.Instrs {
+						if _, isPanic := in.(*ssa.Panic); isPanic {
+							raises++
+						}
+					}
+				}
+			}
+		}
+		key := "asUncatchableException:recognises what isUncatchableException raises"
+		switch {
+		case raises == 0:
+			res.OK(key, p.Pos(asU.Pos()), "no site re-panics a wrapped uncatchable error")
+		case len(core.CallsIn(asU, isU)) > 0:
+			res.OK(key, p.Pos(asU.Pos()), fmt.Sprintf("%d raise sites; the boundary classifier consults isUncatchableException for error values", raises))
+		default:
+			res.Bad(key, p.Pos(asU.Pos()), fmt.Sprintf("%d sites re-panic an error whose Unwrap chain contains an interrupt/stack overflow (isUncatchableException), but asUncatchableException only recognises the bare types: such a panic is not converted at the outermost boundary - RunString/Callable panic with *fmt.wrapError and leaveAbrupt() is skipped", raises))
+		}
+	}
 	return res
 }
 
